@@ -1175,7 +1175,7 @@ class PSBTIn:
                 )
             if self.tx_in.prev_index >= len(self.prev_tx.tx_outs):
                 raise ValueError("input refers to an output index that does not exist")
-        if self.prev_out:
+        if self.prev_out or (script_pubkey and self.use_segwit_signature()):
             # witness input
             if not (
                 script_pubkey.is_p2sh()
@@ -1183,6 +1183,26 @@ class PSBTIn:
                 or script_pubkey.is_p2wpkh()
             ):
                 raise ValueError("Witness UTXO provided for non-witness input")
+            if (
+                script_pubkey.is_p2sh()
+                and self.redeem_script
+                and not self.redeem_script.is_witness_script()
+            ):
+                raise ValueError("Witness UTXO provided for non-witness input")
+            if (
+                self.prev_tx
+                and self.prev_out
+                and self.prev_tx.tx_outs[self.tx_in.prev_index].serialize()
+                != self.prev_out.serialize()
+            ):
+                raise ValueError("Witness UTXO does not match the previous transaction")
+            if self.redeem_script and (
+                not script_pubkey.is_p2sh()
+                or self.redeem_script.hash160() != script_pubkey.commands[1]
+            ):
+                raise ValueError(
+                    "RedeemScript hash160 and ScriptPubKey hash160 do not match"
+                )
             if self.witness_script:  # p2wsh or p2sh-p2wsh
                 if not script_pubkey.is_p2wsh() and not (
                     self.redeem_script and self.redeem_script.is_p2wsh()
@@ -1198,7 +1218,7 @@ class PSBTIn:
                         )
                     s256 = self.redeem_script.commands[1]
                 else:
-                    s256 = self.prev_out.script_pubkey.commands[1]
+                    s256 = script_pubkey.commands[1]
                 if self.witness_script.sha256() != s256:
                     raise ValueError(
                         "WitnessScript sha256 and output sha256 do not match"
@@ -1216,7 +1236,11 @@ class PSBTIn:
                     raise ValueError("too many pubkeys in p2wpkh or p2sh-p2wpkh")
                 elif len(self.named_pubs) == 1:
                     named_pub = list(self.named_pubs.values())[0]
-                    if script_pubkey.commands[1] != named_pub.hash160():
+                    if script_pubkey.is_p2wpkh():
+                        h160 = script_pubkey.commands[1]
+                    else:
+                        h160 = self.redeem_script.commands[1]
+                    if h160 != named_pub.hash160():
                         raise ValueError(
                             "pubkey {} does not match the hash160".format(
                                 named_pub.sec().hex()
